@@ -27,7 +27,9 @@ RULE = (
     "(irregular dyadic axes, given decreasing where axes_increase is false) and EsriGrid (all ncols,nrows, both orders), "
     "plus malformed constructions (non-monotonic axes, wrong lengths) and random sequences on living grid objects "
     "(reads of data_shape, data_size, data_points, data_axes, points, cells, cell_centers, cell_axes, "
-    "to_unstructured().data_points/.data_shape; accepted and rejected data_location changes; shallow and deep copies), "
+    "to_unstructured().data_points/.data_shape; accepted and rejected data_location changes; shallow and deep copies; "
+    "in-place edits by the receiver of arrays returned by the grid, by a copy or by its unstructured cast, followed by "
+    "a read of the grid), "
     "every read compared with the model and with a freshly built grid at the current location; non-trivial = the layout differs from the default (order F, not reversed, all "
     "increasing, CELLS) in at least one flag and the grid has >= 2 data elements, or (memo case) a location change "
     "after a read; distinct by canonical case hash"
@@ -37,6 +39,14 @@ TRUSTED = [
     "rounding of coordinates are outside the model (axes are dyadic, compared exactly)",
 ]
 ASSUMPTIONS = [
+    "in-place edits by the receiver are generated only for arrays the grid computes on access (points, data_points, "
+    "cell_centers, cells) and arrays of derived objects (to_unstructured() points/cells/data_points/cell_centers/"
+    "cell_types, the same reads on a shallow copy).  Kept OUT of the domain because the unchanged tree returns them by "
+    "reference or as views of the stored axes (editing them does change the grid): `axes`; every `data_axes` entry of a "
+    "grid with POINTS data; `data_axes` / `cell_axes` entries of single-node axes (CELLS); a shallow copy() shares the "
+    "axes arrays with the original.  Also not generated: RectilinearGrid(axes=g.data_axes) for a POINTS grid g with a "
+    "decreasing axis reverses g's stored axis in place (constructor keeps float arrays, check_axes_monotonicity reverses "
+    "in place)",
     "coordinates are exact rationals; the implementation's floats are converted with fractions.Fraction",
     "domain of the theorems: every axis has length >= 1; C14_cells_valid / C14_centers_mean: at most 3 non-degenerate axes",
 ]
@@ -120,6 +130,21 @@ def read_prop(o, name):
     return nrow(o.to_unstructured().data_shape)
 
 
+# arrays that may be edited in place by their receiver: everything the grid computes on access and everything
+# owned by a derived object.  NOT in this list (returned by reference / as views of the stored axes on the unchanged
+# tree, see ASSUMPTIONS): axes, data_axes of point data, data_axes / cell_axes entries of single-node axes.
+EDITABLE = ["points", "data_points", "cell_centers", "cells", "u_points", "u_cells", "u_data_points", "u_cell_centers",
+            "u_cell_types"]
+
+
+def fetch_editable(o, name):
+    if name.startswith("u_"):
+        u = o.to_unstructured()
+        return {"u_points": lambda: u.points, "u_cells": lambda: u.cells, "u_data_points": lambda: u.data_points,
+                "u_cell_centers": lambda: u.cell_centers, "u_cell_types": lambda: u.cell_types}[name]()
+    return getattr(o, name)
+
+
 def _memo_case(rng):
     cls = rng.choice(["uniform", "rect", "rect", "esri"])
     d = rng.choice([1, 2, 2, 3])
@@ -140,8 +165,14 @@ def _memo_case(rng):
             ops.append(["size", k])
         elif r < 0.42:
             ops.append(["points", k])
-        elif r < 0.57:
+        elif r < 0.54:
             ops.append(["prop", k, rng.choice(sorted(PROPS))])
+        elif r < 0.66:
+            # the receiver edits, in place, an array it got from the grid, from a copy of it or from its cast;
+            # the grid itself must not change: read it again
+            ops.append(["edit", k, rng.choice(EDITABLE), rng.random() < 0.3])
+            ops.append(rng.choice([["points", k], ["prop", k, "points"], ["prop", k, "u_data_points"],
+                                   ["prop", k, "cell_centers"], ["prop", k, "cells"]]))
         elif r < 0.85:
             ops.append(["set", k, rng.choice(["CELLS", "POINTS"])])
         else:
@@ -169,6 +200,17 @@ CORPUS = [
           [["size", 0], ["copy", 0, False], ["set", 1, "CELLS"], ["size", 1], ["shape", 1], ["shape", 0], ["size", 0]]),
     _memo(_grid_case("esri", (2, 3), "C", True, None, "CELLS"),
           [["shape", 0], ["set", 0, "POINTS"], ["shape", 0], ["set", 0, "CELLS"], ["size", 0], ["shape", 3]]),
+    # seeded defect C14_g: the unstructured cast (or a returned array) is edited in place, the grid is read again
+    _memo(_grid_case("uniform", (3, 2), "F", False, (True, True), "POINTS"),
+          [["prop", 0, "points"], ["edit", 0, "u_points", False], ["prop", 0, "points"], ["points", 0],
+           ["prop", 0, "u_data_points"], ["prop", 0, "data_axes"]]),
+    _memo(_grid_case("esri", (3, 2), "C", True, None, "CELLS"),
+          [["edit", 0, "u_points", False], ["prop", 0, "points"], ["prop", 0, "cell_centers"], ["prop", 0, "u_data_points"],
+           ["copy", 0, False], ["prop", 1, "points"]]),
+    _memo(_grid_case("rect", (2, 3, 2), "C", True, (True, False, True), "CELLS"),
+          [["edit", 0, "points", False], ["prop", 0, "points"], ["edit", 0, "cells", True], ["prop", 0, "cells"],
+           ["edit", 0, "cell_centers", False], ["points", 0], ["edit", 0, "u_data_points", False], ["prop", 0, "u_data_points"],
+           ["set", 0, "POINTS"], ["edit", 0, "data_points", False], ["points", 0], ["prop", 0, "u_data_points"]]),
     # seeded defect C16_d: data_points read once, location switched on the object / on a copy, read again
     _memo(_U23, [["points", 0], ["set", 0, "POINTS"], ["points", 0], ["shape", 0], ["prop", 0, "u_data_points"],
                  ["copy", 0, False], ["set", 1, "CELLS"], ["points", 1], ["prop", 1, "data_axes"], ["points", 0]]),
@@ -296,7 +338,7 @@ def run_impl(case):
     for op in case["ops"]:
         k = op[1]
         if k >= len(objs):
-            res.append({"r": "bad"})
+            res.append({"r": "edit"} if op[0] == "edit" else {"r": "bad"})
             continue
         o = objs[k]
         if op[0] == "shape":
@@ -306,6 +348,10 @@ def run_impl(case):
             res.append({"r": "size", "v": int(o.data_size), "fresh": int(build_grid(case, locs[k]).data_size)})
         elif op[0] == "points":
             res.append({"r": "points", "v": qmat(o.data_points), "fresh": qmat(build_grid(case, locs[k]).data_points)})
+        elif op[0] == "edit":
+            a = fetch_editable(o.copy() if op[3] else o, op[2])
+            a += 7  # in place, also through views
+            res.append({"r": "edit"})
         elif op[0] == "prop":
             res.append({"r": "prop", "p": op[2], "v": read_prop(o, op[2]), "fresh": read_prop(build_grid(case, locs[k]), op[2])})
         elif op[0] == "set":
@@ -375,7 +421,8 @@ def _mop(op):
 def coq_case(case, obs):
     if case["kind"] == "grid":
         return C("GridCase", coq_spec(case), coq_layout(case))
-    return C("MemoCase", coq_spec(case), coq_layout(case), L(_mop(o) for o in case["ops"]))
+    # an in-place edit of a returned array / of a derived object is no operation on the grid: not part of the model script
+    return C("MemoCase", coq_spec(case), coq_layout(case), L(_mop(o) for o in case["ops"] if o[0] != "edit"))
 
 
 def _mres(r):
@@ -405,7 +452,7 @@ def coq_obs(case, obs):
         return C("OGrid", Some(P(L(NM(m) for m in obs["nat"]), L(QM(m) for m in obs["q"]))))
     if "err" in obs:
         return C("OMemo", NONE)
-    return C("OMemo", Some(L(_mres(r) for r in obs["res"])))
+    return C("OMemo", Some(L(_mres(r) for r in obs["res"] if r["r"] != "edit")))
 
 
 # ---------------------------------------------------------------------------------------------
